@@ -92,6 +92,22 @@ def run_case(rng, tier, idx):
         ratio, ij = entrywise_excess(blk, Ko, S, tol)
         c.judge('kG0 equals the Hessian of the pre-stress work', ratio * tol, tol,
                 data={'entry': ij, 'code': blk[ij], 'oracle': Ko[ij], 'scale': S[ij]})
+        # a sibling object in the same process: same geometry, loads and flags, series orders exchanged (same matrix size) - its
+        # matrix is that of ITS series (nothing computed for the first object may be handed to the second)
+        if d['m'] != d['n'] and d['model'] != 'kpanel' and rng.random() < 0.4:
+            c.tag('clause:sibling')
+            d2 = dict(d); d2['m'], d2['n'] = d['n'], d['m']
+            p2 = gen.build_panel(d2)
+            p2.Nxx, p2.Nyy, p2.Nxy = N
+            p2.calc_k0(silent=True)
+            b2, _ = energy.block(p2.calc_kG0(size=d['size'], row0=row0, col0=row0, silent=True), row0, size_p)
+            nx2, ny2 = energy.exact_orders(p2)
+            xs2, ys2, w2 = energy.gauss_grid(p2, nx2, ny2)
+            Ko2, S2 = energy.quad_form(slope_basis(p2, d2, xs2, ys2), Nm, w2)
+            tol2 = TOL * gen.subinterval_amplification(d2)
+            ratio, ij = entrywise_excess(b2, Ko2, S2, tol2)
+            c.judge('kG0 of a sibling panel with exchanged series orders is that of its own series', ratio * tol2, tol2,
+                    data={'orders': [d2['m'], d2['n']]})
         # linearity in the three resultants: three unit-load executions
         if rng.random() < 0.5:
             acc = np.zeros_like(blk)
